@@ -482,7 +482,7 @@ def packet_histories(ctx, variant, f05):
     against the seekable twin with the same delivery schedule (theorem C11_wrapper_refines_any_raw)"""
     rng = ctx.rng
     exprs, meta = [], []
-    for i in range(ctx.n(100, 1000)):
+    for i in range(ctx.n(80, 1000)):
         size = min(rng.choice(SIZES) if rng.random() < 0.7 else rng.randrange(0, 4 * BUF), 35000)
         data = seg_data(rng, size)
         pool = [1, 2, 3, 7, 64, 500, 1000, 3000, BUF - 1, BUF, BUF + 1, 2 * BUF + 5]
